@@ -67,13 +67,13 @@ def add_with_id(ctx, rule):
     sh = q.shape(a, roles)
     ctx.check(sh == "RawToken{dst_line:arg2,dst_col:arg3,src_line:arg4,src_col:arg5,src_id:SID,name_id:NID,is_range:arg9}", rule, fn, "fields",
               "the token's fields are the parameters of the same meaning, in order", detail=sh)
-    expect_defs(ctx, rule, b, sid, roles, {"Not(0)": "none", "SourceMapBuilder::add_source_with_id(arg1,try(arg6),arg7)": "interned"}, ["none", "interned"], "source id")
-    expect_defs(ctx, rule, b, nid, roles, {"Not(0)": "none", "SourceMapBuilder::add_name(arg1,try(arg8))": "interned"}, ["none", "interned"], "name id")
-    for loc, arg, what in ((sid, "arg6", "source"), (nid, "arg8", "name")):
-        for sh, site, _ in q.def_shapes(b, loc, roles):
-            if sh == "Not(0)":
-                ctx.check(has_fact(b, site[0], roles, ("variant_in", arg, "(0,)"), ("variant_not_in", arg, "(1,)")), rule, fn, "tombstone:%s" % what,
-                          "the %s id is the tombstone only when no %s was given (every given string, the empty one included, is interned)" % (what, what), ctx.site(b, *site))
+    # id = interned id when a string was given, the tombstone !0 otherwise - as a two-sided match
+    # or as `opt.map_or(!0, |s| self.add_..(s))`; both print as the same map_or form
+    for loc, want, what in ((sid, "Option::map_or(arg6,Not(0),%s(SourceMapBuilder::add_source_with_id(arg1,p1,arg7)))" % LAM, "source"),
+                            (nid, "Option::map_or(arg8,Not(0),%s(SourceMapBuilder::add_name(arg1,p1)))" % LAM, "name")):
+        vs = (q.value_shape(b, loc, {}) or "").replace("^", "")
+        ctx.check(vs == want, rule, fn, "id:%s" % what,
+                  "the %s id is the interned id of the given string and the tombstone only when no %s was given (every given string, the empty one included, is interned)" % (what, what), detail=vs)
     pushes = [q.shape(b.expr_of_call(t), roles) for bi, t in q.calls_to(b, "Vec::<T, A>::push")]
     ctx.check(len(pushes) == 1 and pushes[0].startswith("Vec::push(arg1.tokens,RawToken{"), rule, fn, "push", "the token is appended to the builder's tokens")
     pb = [bi for bi, t in q.calls_to(b, "Vec::<T, A>::push")]
